@@ -39,7 +39,19 @@ def setup(t, N, m):
     def c_dom(ex, st, self_val, args, kwargs, node):
         i, j = which(L.as_arr(args[0])), which(L.as_arr(args[1]))
         if i is None or j is None:
-            return [(st, L.mk([z3.Bool("dom_unknown!%d" % V.fresh_id())], (1,), "b"))]
+            # not syntactically an input row (e.g. a row selected by a symbolic index): the relation depends on the two
+            # vectors' VALUES only, so the result equals D[i][j] for every pair of rows the arguments are equal to.  If an
+            # argument equals no input row the result stays unconstrained; the name marks it as an over-approximation, so a
+            # counter-model that needs it is reported as undecided, never as a violation.
+            a0, a1 = L.as_arr(args[0]).flat(), L.as_arr(args[1]).flat()
+            if len(a0) != m or len(a1) != m:
+                return [(st, L.mk([z3.Bool("dom_unknown!%d" % V.fresh_id())], (1,), "b"))]
+            r = z3.Bool("dom_unknown!%d" % V.fresh_id())
+            is_row = lambda a, k: z3.And(*[V.R(a[c]) == V.R(EL.a[k, c]) for c in range(m)])
+            for ii in range(N):
+                for jj in range(N):
+                    st.pc.append(z3.Implies(z3.And(is_row(a0, ii), is_row(a1, jj)), r == D[ii][jj]))
+            return [(st, L.mk([r], (1,), "b"))]
         return [(st, L.mk([D[i][j]], (1,), "b"))]
     t.contracts[ORD + "::PolyhedralConeOrder.dominates"] = c_dom
     order = SObj(cls_ref(ORD, "PolyhedralConeOrder"), {"ordering_cone": SObj("ConeStub", {})})
